@@ -72,21 +72,23 @@ func yq(s string) string { // YAML double-quoted scalar
 	return sb.String()
 }
 
-func yf(f float64) string { return strconv.FormatFloat(f, 'g', -1, 64) }
+func yf(f float64) string {
+	s := strconv.FormatFloat(f, 'g', -1, 64)
+	switch s {
+	case "+Inf":
+		return ".inf"
+	case "-Inf":
+		return "-.inf"
+	case "NaN":
+		return ".nan"
+	}
+	return s
+}
 
 func yfloats(fs []float64) string {
 	var o []string
 	for _, f := range fs {
-		s := yf(f)
-		switch s {
-		case "+Inf":
-			s = ".inf"
-		case "-Inf":
-			s = "-.inf"
-		case "NaN":
-			s = ".nan"
-		}
-		o = append(o, s)
+		o = append(o, yf(f))
 	}
 	return "[" + strings.Join(o, ", ") + "]"
 }
